@@ -166,7 +166,7 @@ def unit_limiter(sess, ctx):
             eng.run_function(ctx.fi(QU + "_Limiter.__init__"), [inner, mr], {}, me)
             h = eng.st.heap[me.oid]
             eng.prove("C10:limiter-init:max_samples-is-round(max_read*rate)",
-                      I(h["_max_samples"]) == r_round_half_even(R(mr) * R(v.sr)) if is_int(h.get("_max_samples")) else False,
+                      I(h["_max_samples"]) == r_round_half_even(eng.spec_mul(mr, v.sr)) if is_int(h.get("_max_samples")) else False,
                       props=("C10", "C09", "C19"))
             eng.prove("C10:limiter-init:nothing-read-yet", And(I(h["_read_samples"]) == 0, I(h["_bytes_per_sample"]) == v.bps),
                       props=P10)
@@ -236,7 +236,7 @@ def unit_fixed(sess, ctx):
             me = eng.st.new_obj("_FixedSizeAudioReader", {})
             k = eng.choose(2, None, "block_dur float/int")
             bd = Fl(Real("block_dur")) if k == 0 else Int("block_dur")
-            bs = r_trunc(R(bd) * R(v.sr))
+            bs = r_trunc(eng.spec_mul(bd, v.sr))
             try:
                 eng.run_function(ctx.fi(QU + "_FixedSizeAudioReader.__init__"), [inner, bd], {}, me)
             except PyRaise as e:
@@ -278,7 +278,7 @@ def unit_fixed(sess, ctx):
         r1 = eng.run_function(ctx.fi(QU + "_FixedSizeAudioReader.block_size"), [], {}, me)
         r2 = eng.run_function(ctx.fi(QU + "_FixedSizeAudioReader.block_dur"), [], {}, me)
         eng.prove("C10:fixed:block_size-property", I(r1) == bs if is_int(r1) else False, props=P10)
-        eng.prove("C05:fixed:block_dur-is-block_size/rate", (r2.t * R(v.sr) == R(bs)) if isinstance(r2, Fl) else False,
+        eng.prove("C05:fixed:block_dur-is-block_size/rate", (r2.t == eng.spec_div(bs, v.sr)) if isinstance(r2, Fl) else False,
                   props=("C10", "C05", "C06"))
         return None
     sess.run_unit(u, eng, run_)
@@ -460,7 +460,7 @@ def unit_overlap_misc(sess, ctx):
                 if e.exc == "ValueError":
                     eng.prove("C10:overlap-init:ValueError-iff-hop>=block-or-block<=0", Or(hd.t >= bd.t, bd.t <= 0), props=P10)
                 elif e.exc == "TooSmallBlockDuration":
-                    eng.prove("C10:overlap-init:TooSmall-iff-block-shorter-than-a-sample", r_trunc(bd.t * R(v.sr)) == 0, props=P10)
+                    eng.prove("C10:overlap-init:TooSmall-iff-block-shorter-than-a-sample", r_trunc(eng.spec_mul(bd, v.sr)) == 0, props=P10)
                 else:
                     eng.prove("C10:overlap-init:unexpected-%s" % e.exc, False, props=P10)
                 return None
@@ -468,8 +468,8 @@ def unit_overlap_misc(sess, ctx):
             # the statement rejects hop_dur > block_dur; equality is routed to the fixed reader by AudioReader and may be
             # rejected or accepted here
             eng.prove("C10:overlap-init:accepted-only-hop<=block", And(hd.t <= bd.t, bd.t > 0), props=P10)
-            eng.prove("C10:overlap-init:sizes", And(I(h["_block_size"]) == r_trunc(bd.t * R(v.sr)),
-                                                    I(h["_hop_size"]) == r_trunc(hd.t * R(v.sr))), props=P10)
+            eng.prove("C10:overlap-init:sizes", And(I(h["_block_size"]) == r_trunc(eng.spec_mul(bd, v.sr)),
+                                                    I(h["_hop_size"]) == r_trunc(eng.spec_mul(hd, v.sr))), props=P10)
             eng.prove("C10:overlap-init:block-generator-created", len(gh.get("gens", [])) == 1 and h["_blocks"] is gh["gens"][0], props=PB)
             return None
         g0 = GenVal("abstract", name="blocks0", next_fn=lambda e, g_: gh["next"](e, g_))
@@ -764,7 +764,7 @@ def unit_audioreader(sess, ctx):
         if op == "block_dur":
             res = eng.run_function(ctx.fi(QU + "AudioReader.block_dur"), [], {}, me)
             eng.prove("C05:AudioReader:block_dur-is-block_size/rate",
-                      (res.t * R(v.sr) == R(eng.st.heap[inner.oid]["block_size"])) if isinstance(res, Fl) else False,
+                      (res.t == eng.spec_div(eng.st.heap[inner.oid]["block_size"], v.sr)) if isinstance(res, Fl) else False,
                       props=("C05", "C06", "C10"))
             return None
         if op == "hop":
@@ -780,7 +780,7 @@ def unit_audioreader(sess, ctx):
             bs = eng.st.heap[inner.oid]["block_size"]
             exp = hs if has_hop else bs
             eng.prove("C10:AudioReader:hop_size-is-the-hop-or-the-block", is_int(r1) and z3.is_true(z3.simplify(I(r1) == exp)), props=P10)
-            eng.prove("C10:AudioReader:hop_dur-is-hop_size/rate", (r2.t * R(v.sr) == R(exp)) if isinstance(r2, Fl) else False, props=P10)
+            eng.prove("C10:AudioReader:hop_dur-is-hop_size/rate", (r2.t == eng.spec_div(exp, v.sr)) if isinstance(r2, Fl) else False, props=P10)
             return None
         if op == "max_read":
             has = eng.choose(2, None, "limited?") == 0
